@@ -529,10 +529,11 @@ def check_C14(ctx, rep):
         s = param(0)
         cs = tcmp_consts(t, s.t)
         L = (cs.get("lt") or [None])[0]; U = (cs.get("ge") or [None])[0]
-        okL = L is not None and -1080.0 < L <= -900.0
-        okU = U is not None and 1000.0 < U <= 1024.0
-        rep.check(okL, "R35", "exp2 underflow switch", "exp2-lower", "exp2 returns 0 below %r; the property needs 0 at and below -1080 and accuracy down to -900" % L, detail=L)
-        rep.check(okU, "R35", "exp2 overflow switch", "exp2-upper", "exp2 saturates from %r; the property needs non-finite at and above 1024 and accuracy up to 1000" % U, detail=U)
+        # exact points: exp2(k) = 2^k for every integer k in [-1022, 1022], so the switches lie outside that range
+        okL = L is not None and -1080.0 < L <= -1022.0
+        okU = U is not None and 1022.0 < U <= 1024.0
+        rep.check(okL, "R35", "exp2 underflow switch", "exp2-lower", "exp2 returns 0 below %r; the property needs 0 at and below -1080, accuracy down to -900 and exp2(-1022) = 2^-1022 exactly" % L, detail=L)
+        rep.check(okU, "R35", "exp2 overflow switch", "exp2-upper", "exp2 saturates from %r; the property needs non-finite at and above 1024, accuracy up to 1000 and exp2(1022) = 2^1022 exactly" % U, detail=U)
         if not (okL and okU):
             return None
         ln2 = oracle.dd_named("LN_2"); LN2 = TFv(ln2[0], ln2[1])
@@ -1424,69 +1425,117 @@ def check_powi_loop(fx):
         return fail("no loop found")
     entry = entries[0][2]
     hv_of = {hv: (l, before) for l, (before, hv) in entry.items()}
-    # shape: if N > 0 { if (N & 1) != 0 {back} else {back} } else { if n > 0 {ret R} else {ret recip(R)} }
     UTYS = ("u32", "u64", "u128", "usize")      # unsigned counter types that hold |i32::MIN|
     def uconst(t, v):
         return tag(t) == "const" and t[1] in UTYS and t[2] == v
-    def pos_test(c):
-        """(N, polarity): c true  <=>  N > 0 (polarity True) or N == 0 (False), for an unsigned havoc N"""
-        if tag(c) == "cmp" and tag(c[3]) == "havoc" and c[3][2] in UTYS and uconst(c[4], 0) and c[4][1] == c[3][2]:
-            if c[1] in ("gt", "ne"):
-                return c[3], True
-            if c[1] in ("eq", "le"):
-                return c[3], False
-        return None, None
-    if g[0] != "if":
-        return fail("no loop on the remaining exponent")
-    Nn, pol = pos_test(g[1])
-    if Nn is None:
-        return fail("loop condition is not `remaining exponent > 0`")
-    body, exit_ = (g[2], g[3]) if pol else (g[3], g[2])
-    zero32 = mk("const", "i32", 0)
-    if exit_[0] != "if" or exit_[1] not in (mk("cmp", "gt", "i32", P(1), zero32), mk("cmp", "ge", "i32", P(1), zero32), mk("cmp", "lt", "i32", P(1), zero32), mk("cmp", "le", "i32", P(1), zero32)):
-        return fail("result is not selected by n > 0")
-    if exit_[1][1] in ("gt", "ge"):
-        rpos, rneg = exit_[2], exit_[3]
-    else:
-        rpos, rneg = exit_[3], exit_[2]
-    if rpos[0] != "leaf" or tag(rpos[1]) != "havoc" or rneg != ("leaf", N.norm(mk("call", "TwoFloat::recip", rpos[1])), ()):
-        return fail("exit is not `n > 0 ? result : recip(result)`")
-    R = rpos[1]
-    cty = Nn[2]
+    # One pass of the loop from its head, state (R, V, N) arbitrary, as a tree over tests of N alone.  The reference iteration is
+    #     while N > 0 { if N & 1 != 0 { R *= V }; V *= V; N >>= 1 }   then   n > 0 ? R : recip(R)
+    # and a pass conforms when every path either goes round with the reference update (and has tested that exponent bits remain), or
+    # leaves with the value the reference would return: R when N == 0, (N & 1 ? R * V : R) when N >> 1 == 0 (the reference's last
+    # squaring is dead).
+    Ns = [hv for hv in hv_of if hv[2] in UTYS]
+    if len(Ns) != 1:
+        return fail("no single unsigned loop variable holds the remaining exponent")
+    Nn = Ns[0]; cty = Nn[2]
     low = mk("i", "bitand", cty, Nn, mk("const", cty, 1))
-    if body[0] != "if" or tag(body[1]) != "cmp" or body[1][3] is not low or body[2][0] != "backedge" or body[3][0] != "backedge":
-        return fail("loop body does not test the low bit of the remaining exponent")
-    bc = body[1]
-    if (bc[1] == "ne" and uconst(bc[4], 0)) or (bc[1] == "eq" and uconst(bc[4], 1)):
-        b_set, b_clear = body[2], body[3]
-    elif (bc[1] == "eq" and uconst(bc[4], 0)) or (bc[1] == "ne" and uconst(bc[4], 1)):
-        b_set, b_clear = body[3], body[2]
-    else:
-        return fail("loop body does not test the low bit of the remaining exponent")
+    half = mk("i", "shr", cty, Nn, mk("const", "u32", 1))
+    def pos_test(c):
+        """(which, polarity): c true  <=>  X > 0 (polarity True) or X == 0 (False), X the remaining exponent ("n") or its half ("h")"""
+        if tag(c) == "cmp" and (c[3] is Nn or c[3] is half) and uconst(c[4], 0) and c[4][1] == cty:
+            w = "n" if c[3] is Nn else "h"
+            if c[1] in ("gt", "ne"):
+                return w, True
+            if c[1] in ("eq", "le"):
+                return w, False
+        return None, None
+    def bit_test(c):
+        if tag(c) == "cmp" and c[3] is low:
+            if (c[1] == "ne" and uconst(c[4], 0)) or (c[1] == "eq" and uconst(c[4], 1)):
+                return True
+            if (c[1] == "eq" and uconst(c[4], 0)) or (c[1] == "ne" and uconst(c[4], 1)):
+                return False
+        return None
+    zero32 = mk("const", "i32", 0)
+    SEL = (mk("cmp", "gt", "i32", P(1), zero32), mk("cmp", "ge", "i32", P(1), zero32), mk("cmp", "lt", "i32", P(1), zero32), mk("cmp", "le", "i32", P(1), zero32))
+    paths = []      # (facts, "back" | "exit", snapshot | result term)
+    err = []
+    def walk(g, fa):
+        if err:
+            return
+        if fa.get("n") is False and (fa.get("bit") or fa.get("h")):
+            return      # N == 0 has no bits
+        if g[0] == "backedge":
+            paths.append((dict(fa), "back", g[3])); return
+        if g[0] != "if":
+            err.append("loop body reaches %s" % g[0]); return
+        c = g[1]
+        w, pol = pos_test(c)
+        if w is not None:
+            if fa.get(w) is None:
+                walk(g[2], dict(fa, **{w: pol})); walk(g[3], dict(fa, **{w: not pol}))
+            else:
+                walk(g[2] if fa[w] == pol else g[3], fa)
+            return
+        bt = bit_test(c)
+        if bt is not None:
+            if fa.get("bit") is None:
+                walk(g[2], dict(fa, bit=bt)); walk(g[3], dict(fa, bit=not bt))
+            else:
+                walk(g[2] if fa["bit"] == bt else g[3], fa)
+            return
+        if c in SEL:
+            rpos, rneg = (g[2], g[3]) if c[1] in ("gt", "ge") else (g[3], g[2])
+            if rpos[0] != "leaf" or rneg != ("leaf", N.norm(mk("call", "TwoFloat::recip", rpos[1])), ()):
+                err.append("exit is not `n > 0 ? result : recip(result)`"); return
+            paths.append((dict(fa), "exit", rpos[1])); return
+        err.append("the loop tests something other than the remaining exponent (its sign, its low bit, its half) and the sign of n: %s" % vg.show(c)[:160])
+    walk(g, {})
+    if err:
+        return fail(err[0])
+    backs = [p_ for p_ in paths if p_[1] == "back"]; exits = [p_ for p_ in paths if p_[1] == "exit"]
+    if not backs or not exits:
+        return fail("no loop on the remaining exponent")
     def after(snap, hv):
         l = hv_of[hv][0]
         for ll, v in snap:
             if ll == l:
                 return v
-    # identify the squared value: the havoc V with V' = V*V on both back edges
-    snap_t, snap_f = b_set[3], b_clear[3]
+    # the squared value: the loop variable V with V' = V*V on the back edges; the accumulator: the other TwoFloat one
     Vv = None
     for hv in hv_of:
-        if hv is not R and hv is not Nn and after(snap_t, hv) is N.norm(mk("call", "op:mul:TwoFloat:TwoFloat", hv, hv)):
+        if hv is not Nn and after(backs[0][2], hv) is N.norm(mk("call", "op:mul:TwoFloat:TwoFloat", hv, hv)):
             Vv = hv
     if Vv is None:
         return fail("no variable is squared on every iteration")
+    Rs = [hv for hv in hv_of if hv is not Nn and hv is not Vv and hv[2] == "TwoFloat"]
+    if len(Rs) != 1:
+        return fail("no single accumulator")
+    R = Rs[0]
     sq = N.norm(mk("call", "op:mul:TwoFloat:TwoFloat", Vv, Vv))
-    half = mk("i", "shr", cty, Nn, mk("const", "u32", 1))
-    conds = [after(snap_t, R) is N.norm(mk("call", "op:mul:TwoFloat:TwoFloat", R, Vv)), after(snap_f, R) is R,
-             after(snap_t, Vv) is sq, after(snap_f, Vv) is sq, after(snap_t, Nn) is half, after(snap_f, Nn) is half]
-    if not all(conds):
-        return fail("iteration is not { if bit { result *= value }; value *= value; n >>= 1 } (%s)" % conds)
+    RV = N.norm(mk("call", "op:mul:TwoFloat:TwoFloat", R, Vv))
+    for fa, kind, x in paths:
+        if kind == "back":
+            if not (fa.get("n") or fa.get("h")):
+                return fail("an iteration goes round without having tested that exponent bits remain")
+            if fa.get("bit") is None:
+                return fail("an iteration does not test the low bit of the remaining exponent")
+            conds = [after(x, R) is (RV if fa["bit"] else R), after(x, Vv) is sq, after(x, Nn) is half]
+            if not all(conds):
+                return fail("iteration is not { if bit { result *= value }; value *= value; n >>= 1 } (%s)" % conds)
+        else:
+            if fa.get("n") is False:
+                want_x = R
+            elif fa.get("h") is False and fa.get("bit") is not None:
+                want_x = RV if fa["bit"] else R
+            else:
+                return fail("the loop is left while exponent bits may remain")
+            if x is not want_x:
+                return fail("the value returned when the exponent is used up is not the accumulated product: %s" % vg.show(x)[:200])
     n0 = hv_of[Nn][1]
     if tag(n0) == "cast" and n0[1] == "IntToInt" and n0[2] == "u32" and n0[3] == cty and vg.INT_BITS[cty] >= 32:
         n0 = n0[4]      # lossless widening of |n|
     init_ok = hv_of[R][1] is one and hv_of[Vv][1] is s and tag(n0) == "call" and n0[1] == "core::num::<impl i32>::unsigned_abs" and n0[2] is P(1)
     if not init_ok:
         return fail("initial state is not (result, value, remaining) = (1, self, |n| without overflow): %s, %s, %s" % (vg.show(hv_of[R][1]), vg.show(hv_of[Vv][1]), vg.show(hv_of[Nn][1])))
-    rep.ok("R26", "powi square-and-multiply loop", detail="(result, value, k) = (1, self, unsigned_abs(n)); while k > 0 { if k&1 != 0 { result *= value }; value *= value; k >>= 1 }; n > 0 ? result : recip(result)")
+    rep.ok("R26", "powi square-and-multiply loop", detail="(result, value, k) = (1, self, unsigned_abs(n)); while k > 0 { if k&1 != 0 { result *= value }; value *= value; k >>= 1 }; n > 0 ? result : recip(result) -- %d back edges, %d exits conform" % (len(backs), len(exits)))
     return True
